@@ -157,7 +157,7 @@ struct default_color_converter_impl<hsv_t,rgb_t>
          t = get_color( src, value_t() )
            * ( 1.f - ( get_color( src, saturation_t() ) * ( 1.f - frac )));
 
-         switch( i )
+         switch( i % 6 )   // hue is periodic: hue 1 (h == 6) denotes the same colour as hue 0
          {
             case 0:
             {
